@@ -36,12 +36,12 @@ def main():
             sys.exit(2)
     ok, log = coqaudit.build()
     if ok:
-        proof = coqaudit.audit(pid)
+        proof = coqaudit.audit(pid, tier)
     else:
         # build.sh keeps going (make -k): a file that belongs to another property may be what failed.
         # Props/<pid>.v compiles only if every one of its dependencies was rebuilt from the current
         # sources (failed targets are deleted), so a clean audit means this property's proofs stand.
-        proof = coqaudit.audit(pid)
+        proof = coqaudit.audit(pid, tier)
         if proof["broken"] or not os.path.exists(os.path.join(coqaudit.VERIF, "ocaml", "driver")) \
                 or not coqaudit.extraction_current():
             proof["broken"] = ["build failed: " + log[-1500:]] + proof["broken"]
